@@ -303,3 +303,40 @@ func raceFrame(path string) string {
 // RacePass reports whether this process is the auxiliary free-running -race pass; the
 // harness then runs its bodies natively (no scheduler) and exits 0.
 func RacePass() bool { return os.Getenv("VERIF_RACE_PASS") == "1" }
+
+// ReplayPayload returns the "replay" object of the artefact named by `--replay <file>` on the
+// command line (nil if the check was not started in replay mode).
+func ReplayPayload() map[string]any {
+	for i, a := range os.Args {
+		if a == "--replay" && i+1 < len(os.Args) {
+			b, err := os.ReadFile(os.Args[i+1])
+			if err != nil {
+				Infra("replay file: %v", err)
+			}
+			var doc struct {
+				Replay map[string]any `json:"replay"`
+			}
+			if err := json.Unmarshal(b, &doc); err != nil || doc.Replay == nil {
+				Infra("replay file %s has no replay object", os.Args[i+1])
+			}
+			return doc.Replay
+		}
+	}
+	return nil
+}
+
+// ReplayIndex returns replay["index"] of the artefact given with --replay.
+func ReplayIndex() (int, bool) {
+	p := ReplayPayload()
+	if p == nil {
+		return 0, false
+	}
+	if d, ok := p["detail"].(map[string]any); ok { // sharded harnesses nest their payload
+		p = d
+	}
+	f, ok := p["index"].(float64)
+	if !ok {
+		Infra("replay artefact has no index")
+	}
+	return int(f), true
+}
